@@ -15,7 +15,7 @@ import (
 // the cache under test, asked to Import the path. What the caller observes is the imported
 // package; its Ident constant is the build identity the export data was compiled for.
 
-var identRE = regexp.MustCompile(`w/p[0-9]@([0-9]+|\*)\[[^\]\x00-\x1f"]*\]`)
+var identRE = regexp.MustCompile(`w/p[0-9]@([0-9]+|\*)\[[^\]\x00-\x1f"]*\](\+B)?`)
 
 // identOf extracts the build identity from what Find returned. In plain records the file
 // content is the identity; in real records it is an archive that contains the constant's
@@ -45,6 +45,12 @@ func importVia(c packages.Cache, dir, path string, from bool) (ident string, err
 	if c != nil {
 		imp.SetCache(c)
 	}
+	return importWith(imp, dir, path, from)
+}
+
+// importWith imports path through imp: Import (the importer's working directory) or
+// ImportFrom(path, dir).
+func importWith(imp *packages.Importer, dir, path string, from bool) (ident string, err error) {
 	var pkg *types.Package
 	if from {
 		pkg, err = imp.ImportFrom(path, dir, 0)
